@@ -143,7 +143,7 @@ def coq_literal_list(items):
     return "[" + "; ".join(items) + "]"
 
 
-def run_coq_cases(prop, run_module, case_terms, chunk=400, verdict_fn="verdict", tag="cases", extra=""):
+def run_coq_cases(prop, run_module, case_terms, chunk=400, verdict_fn="verdict", tag="cases", extra="", case_type=None):
     """Evaluate `map verdict [cases]` inside coqc with vm_compute; returns list of ints (one per case).
 
     Coq itself computes the verdict digit for each case; only digits are parsed."""
@@ -157,7 +157,8 @@ def run_coq_cases(prop, run_module, case_terms, chunk=400, verdict_fn="verdict",
             f.write("From Coq Require Import List ZArith String.\nImport ListNotations.\n")
             f.write(f"From PySM Require Import {run_module}.\n{extra}\n")
             f.write("Local Open Scope nat_scope.\n")
-            f.write("Definition cases := [\n" + ";\n".join(part) + "\n].\n")
+            # (with the type of a case given, empty lists inside a chunk never depend on their neighbours to be typed)
+            f.write(f"Definition cases{(' : list (' + case_type + ')') if case_type else ''} := [\n" + ";\n".join(part) + "\n].\n")
             f.write(f"Eval vm_compute in (List.map {verdict_fn} cases).\n")
         files.append((path, len(part)))
 
